@@ -36,7 +36,7 @@ ASSUMPTIONS = [
     "positional-only parameters are unsupported by the library and are not generated",
 ]
 TY = {
-    "int": ("int", st.integers(-3, 9)), "str": ("str", st.sampled_from(["a", "b c", "null", "1", "-x", "", "1e3"])), "float": ("float", st.sampled_from([0.5, 1.0, -2.5, 1000.0, 200.0, 0.001, 1e22])),
+    "int": ("int", st.integers(-3, 9)), "str": ("str", st.sampled_from(["a", "b c", "null", "1", "-x", "", "1e3"])), "float": ("float", st.sampled_from([0.5, 1.0, -2.5, 1000.0, 200.0, 0.001, 1e22, -1e-05, -1e16, 5e-324])),
     "bool": ("bool", st.booleans()), "optint": ("Optional[int]", st.one_of(st.none(), st.integers(0, 9))), "optstr": ("Optional[str]", st.one_of(st.none(), st.sampled_from(["a", "b"]))),
     "listint": ("List[int]", st.lists(st.integers(0, 9), max_size=3)), "dict": ("Dict[str, int]", st.dictionaries(st.sampled_from(["p", "q"]), st.integers(0, 9), max_size=2)),
     "tuple": ("Tuple[int, str]", st.tuples(st.integers(0, 9), st.sampled_from(["a", "b"])).map(list)), "lit": ("Literal['x', 'y', 3]", st.sampled_from(["x", "y", 3])),
